@@ -50,6 +50,7 @@ type blockRec struct {
 	subsidy    *big.Int
 	gasLimit   uint64
 	evidence   []int                    // main-address ids of validators against whom forged evidence was put into this block's SlashData, in order
+	teFailed   map[string]int           // failed activations seen in the end-block receipt (deposit / delegation over the cap, delegation refused, ...)
 	stateErr   string                   // error recorded by the builder's StateDB in this block ("" normally)
 	dropped    *big.Int                 // value detained by successful create/deposit/delegation-add txs of this block whose hash is in no persisted pending record
 	effective  []chainkit.PendingRecord // records that took effect in this block (period end), in trie order
@@ -301,6 +302,29 @@ func (s *session) runBlock(bl []string) error {
 			rr.stopErr = err.Error()
 			rr.blocks = append(rr.blocks, br)
 			return nil
+		}
+		br.teFailed = map[string]int{}
+		if built.EndReceipt != nil {
+			for _, lg := range built.EndReceipt.Logs {
+				if len(lg.Topics) < 2 {
+					continue
+				}
+				flagged := lg.Topics[1][0] == 0x1
+				switch lg.Topics[0] {
+				case common.StringToHash(staking.LogTopicDepositFailed):
+					br.teFailed["te-deposit-over-cap-refunded"]++
+				case common.StringToHash(staking.LogTopicDelegationAddFailed):
+					if flagged {
+						br.teFailed["te-delegation-over-cap-refunded"]++
+					} else {
+						br.teFailed["te-delegation-refused-refunded"]++
+					}
+				case common.StringToHash(staking.LogTopicDelegationSubFailed):
+					br.teFailed["te-delegation-sub-noop"]++
+				case common.StringToHash(staking.LogTopicChangeStatusFailed):
+					br.teFailed["te-change-status-refused"]++
+				}
+			}
 		}
 		h := built.Block.Header()
 		br.gasRewards, br.subsidy = new(big.Int).Set(h.GasRewards), new(big.Int).Set(h.Subsidy)
